@@ -219,13 +219,14 @@ class Type4(Base):
     kind = "T4"
 
     def __init__(self, files, ats=bytes.fromhex("067577810280"), silent_from=None, aids=("v2", "v1"),
-                 short_read=None, short_from=0, fsd=256, attrib_res=b"\x00", type_b=False):
+                 short_read=None, short_from=0, short_file=None, fsd=256, attrib_res=b"\x00", type_b=False):
         Base.__init__(self, silent_from)
         self.files = {bytes(k): bytes(v) for k, v in files.items()}
         self.ats = bytes(ats)
         self.aids = aids
         self.short_read = short_read
-        self.short_from = short_from      # short reads apply to offsets >= short_from
+        self.short_from = short_from      # short reads apply to offsets >= short_from ...
+        self.short_file = bytes(short_file) if short_file else None       # ... of this file (None: every file)
         self.sel = None
         self.app = False
         self.fsd = fsd
@@ -286,10 +287,10 @@ class Type4(Base):
             le = 256 if (len(body) == 1 and body[0] == 0) else (body[0] if len(body) == 1 else 0)
             f = self.files[self.sel]
             unit = ("rb", self.sel.hex(), off, le)
-            if off > len(f):
-                return "READ-off", unit, b"\x6b\x00"
+            if off >= len(f) and le > 0:
+                return "READ-off", unit, b"\x6b\x00"           # offset outside the EF
             n = min(le, len(f) - off)
-            if self.short_read is not None and off >= self.short_from:
+            if self.short_read is not None and off >= self.short_from and self.short_file in (None, self.sel):
                 n = min(n, self.short_read)
             return "READ", unit, f[off:off + n] + b"\x90\x00"
         return "INS-unknown", None, b"\x6d\x00"
